@@ -63,7 +63,8 @@ type VkEvent struct {
 	Iface string `json:"iface,omitempty"`
 	Conn  int    `json:"conn,omitempty"`
 	Dst   string `json:"dst,omitempty"`
-	Msg   string `json:"msg,omitempty"` // marshalled NDP message, hex
+	From  string `json:"from,omitempty"` // read: the sender
+	Msg   string `json:"msg,omitempty"`  // marshalled NDP message, hex
 	Value bool   `json:"value,omitempty"`
 }
 
@@ -228,7 +229,7 @@ func (c *vkNDPConn) ReadFrom() (ndp.Message, *ipv6.ControlMessage, netip.Addr, e
 						panic("verif: scripted message does not parse: " + err.Error())
 					}
 				}
-				vkLog(VkEvent{Ev: "read", Iface: c.iface, Conn: c.id, Dst: r.From, Msg: m.Type().String(), Value: hop == 255})
+				vkLog(VkEvent{Ev: "read", Iface: c.iface, Conn: c.id, From: r.From, Msg: m.Type().String(), Value: hop == 255})
 				return m, &ipv6.ControlMessage{HopLimit: hop}, netip.MustParseAddr(r.From).WithZone(c.iface), nil
 			}
 			if d := due.Sub(now); d < wait {
